@@ -6,6 +6,8 @@ import glob, json, os, subprocess
 VERIF = os.path.dirname(os.path.dirname(os.path.abspath(__file__)))
 WT = os.environ.get("SEED_WT", "/tmp/seedtest_wt")
 def sh(c): return subprocess.run(c, shell=True, capture_output=True, text=True)
+if not os.path.isdir(WT):
+    sh("git -C /repo worktree add -q --detach %s main" % WT)  # scratch worktree: remove it when done
 commits = sh("git -C /repo log --format=%h").stdout.split()
 head = commits[0]
 n_head = 0
